@@ -90,7 +90,7 @@ pub fn main_campaign() -> SimCampaign {
             );
             let brk = match kind {
                 0 => vec![Op::Drain { c: 0 }, Op::DropLink { c: 0 }, Op::Turn { n: 1 }],
-                1 => vec![Op::Drain { c: 0 }, Op::Disconnect { c: 0, notify: true }, Op::Turn { n: 1 }],
+                1 => vec![Op::Drain { c: 0 }, Op::Disconnect { c: 0, notify: true, with_props: false }, Op::Turn { n: 1 }],
                 // takeover: no explicit break, the resume connect replaces the live connection
                 _ => vec![Op::Drain { c: 0 }],
             };
